@@ -17,6 +17,17 @@ for p in mutants/*.patch; do
   if [ -n "$want" ] && ! echo "$out" | grep -q "obligation=$want"; then echo "SELFTEST-MISS $b: expected obligation $want not among failures"; miss=$((miss+1)); continue; fi
   echo "SELFTEST ok   $b (detected)"
 done
+# changes seeded by independent sub-agents (/verif/seeded/<id>[-n]/patch.diff): must be detected too
+for p in ../seeded/*/patch.diff; do
+  b=seeded-$(basename $(dirname $p)); id=$(basename $(dirname $p)); id=${id%%-*}
+  [ "$sel" != all ] && [ "$id" != "$sel" ] && continue
+  [ -f $(dirname $p)/NOT_DETECTABLE ] && { echo "SELFTEST skip $b (documented as outside the contracts' reach)"; continue; }
+  n=$((n+1))
+  out=$(REPLAYS=/tmp/vf-replays-corpus ./run_mutant.sh $(readlink -f $p) $id -noreplay 2>&1); rc=$?
+  if echo "$out" | grep -q '^STALE'; then echo "SELFTEST stale $b"; continue; fi
+  if [ $rc -ne 1 ]; then echo "SELFTEST-MISS $b: seeded change not detected (rc=$rc)"; miss=$((miss+1)); continue; fi
+  echo "SELFTEST ok   $b (detected)"
+done
 for p in neutral/*.patch; do
   b=$(basename $p .patch); id=$(echo ${b%%_*} | tr a-z A-Z)
   [ "$sel" != all ] && [ "$id" != "$sel" ] && continue
